@@ -15,6 +15,11 @@ for d in sorted(glob.glob(os.path.join(root, "C*"))):
         mons = sorted(set(re.findall(r"^  monitor=(\S+)", txt, re.M)))
         incon = "INCONCLUSIVE" in txt or "HARNESS" in txt
         runs.append(dict(check=m.group(1), tier=m.group(2), detected=bool(viol), violation_lines=len(viol), monitors_that_fired=mons[:12], inconclusive=incon and not viol))
+    blind = None
+    for lg in sorted(glob.glob(os.path.join(d, "blind_check_*.log"))):
+        txt = open(lg, errors="replace").read()
+        blind = dict(check_version="/verif commit a1e1af9 (before any round-3 report existed)", log=os.path.basename(lg),
+                     detected=bool(re.findall(r"^VIOLATION property=", txt, re.M)))
     meta = dict(
         id=mid,
         breaks_property=mid[:3],
@@ -26,6 +31,7 @@ for d in sorted(glob.glob(os.path.join(root, "C*"))):
         checks_run=dict(how="scripts/try_mutant_wt.sh / scripts/try_mutant.sh: change applied to a scratch worktree of /repo (or to /repo itself and reverted straight afterwards), ./check <id> --tier <tier> pointed at it",
                         runs=runs),
         first_attempt=(open(os.path.join(d, "first_attempt.txt")).read().strip() if os.path.exists(os.path.join(d, "first_attempt.txt")) else "detected by the first version of the check that was run against it"),
+        blind_run=blind,
         caught_by=sorted(set(r["check"] + ":" + r["tier"] for r in runs if r["detected"])),
         missed_by=sorted(set(r["check"] + ":" + r["tier"] for r in runs if not r["detected"])),
     )
